@@ -228,7 +228,13 @@ func runC09(tier string, seed uint64, o *Out) error {
 	if err := carrierFamily(tier, seed, o); err != nil {
 		return err
 	}
-	return lagFamily(tier, seed, o)
+	if err := lagFamily(tier, seed, o); err != nil {
+		return err
+	}
+	if err := fnKeyFamily(tier, seed, o); err != nil { // c09fn.go: function-valued grouping keys
+		return err
+	}
+	return blockFamily(tier, seed, o) // c09block.go: the "block" overflow strategy in real time
 }
 
 // ---- the Go carriers of one number -------------------------------------------------------------
